@@ -150,4 +150,5 @@ func genExtra() {
 	genC17()
 	genC13()
 	genC04()
+	genC09()
 }
